@@ -107,9 +107,18 @@ proof fn lemma_tombstone_safe_step(w: &World, id: u64)
 /// C03 / C20: called (ghost) after every World call of Writer::merge: a restart from exactly this directory yields the map the
 /// store had when the merge began (a merge changes no value), provided the merge began in a recoverable state with
 /// consistent hint files
+/// no hint file without its data file: a stale hint file would be adopted by a later data file of the same id and hide its entries
+spec fn hint_has_data(w: &World) -> bool { forall |i: u64| #[trigger] w.hint.contains_key(i) ==> w.data.contains_key(i) }
 proof fn crash_point_merge(w: &World, m0: Map<Bytes, Bytes>, premise: bool)
     requires premise ==> recover_model(w) == m0,   //@[C03.merge.crash_point]
+             hint_has_data(w),                     //@[C03.merge.crash_state_wf]
 {}
+proof fn lemma_del_state_hints(st1: Map<u64, LogStatistics>, w1: &World, sel: Set<u64>, ids: Seq<u64>, st: Map<u64, LogStatistics>, w: &World, jj: int)
+    requires del_state(st1, w1, sel, ids, st, w, jj)
+    ensures hint_has_data(w)
+{
+    reveal(del_state);
+}
 
 /// fsync of the two files of the current output changes no record
 proof fn lemma_recover_synced(w1: &World, w2: &World, hi: u64)
